@@ -117,6 +117,7 @@ def run_seed(sdir, known_oids):
         fo = [o for o in failed if o not in known_oids and G.obligations[o]['kind'] != 'proof-hint']
         props = sorted({t for o in fo for t in G.obligations[o]['tags']})
         hprops = sorted({t for o in hints for t in G.obligations[o]['tags']} - set(props))
+        skip = set(skip) | set(G.anchor_skipped)
         return {'seed': os.path.basename(sdir), 'status': 'alarm' if fo else ('undecided' if (hints or skip) else 'silent'), 'props': props, 'undecided_props': hprops,
                 'left_out': sorted(skip), 'expected': meta.get('detected_by'), 'target': meta.get('property')}
     finally:
@@ -167,6 +168,7 @@ def run_harmless(path, known_oids):
             return {'patch': name, 'status': 'FALSE-ALARM', 'props': sorted({t for o in fo for t in G.obligations[o]['tags']}), 'by': fo[:6]}
         if tool and not skip:
             return {'patch': name, 'status': 'undecided', 'detail': tool[0][:200]}
+        skip = set(skip) | set(G.anchor_skipped)
         if skip or hints:
             return {'patch': name, 'status': 'undecided', 'detail': 'functions outside the subset after the change: %s %s' % (sorted(skip), hints[:2])}
         return {'patch': name, 'status': 'quiet'}
